@@ -18,11 +18,24 @@
 //   dbl <pf> <bits>             [x] through jbn_as_json and jbl_as_json, first text re-read
 //                                                        -> ok <hex text> <hex text jbl> ok <dump> | ... err E_x | err E_x E_y
 //   jrt <pf> <hexdoc>           jbl_from_json, jbl_as_json (binary form in between) -> ok <hex printed> | err1 E_x | perr E_x
+// print channels (every exported way of turning a document into text, see CHANNELS below and PRINT_API in checks/C13.py):
+//   chan <pf> <dump>            the tree through every channel of jbn_as_json / jbn_as_json_alloc
+//   jchan <pf> <dump>           jbl_from_node, then every channel of jbl_as_json / jbl_as_json_alloc
+//                                                        -> groups `<status> <payload> <names>` joined by " | ", channels with the same
+//                                                           answer share a group: ok <hex text> n.xstr,n.fmem,... | ok #<n> n.count
+//                                                           failure: err E_x <names>  (+ " ## <name>=<hex of the text written so far>")
+//   chunks <pf> <dump>          the calls the printer makes: c<ch>[x<count>] (data == NULL; ch as the C char it is passed as),
+//   jchunks <pf> <dump>           b<hex>/<size>/<count> (data != NULL: bytes up to size, or up to the NUL when size < 0)
+//                                                        -> ok <chunk> <chunk> ... | err E_x
+//   xml <pf> <dump>             jbn_as_xml through every printer callback (implementation only: the channels must agree)
+//   reg <dump>                  iwjsreg_open + iwjsreg_replace("/") + iwjsreg_sync: the registry file (implementation only)
 // dump: n t f i<dec> d<16 hex bits>[:<hex>] s<hex> [ ... ]  { k<hex> <value> ... }
 #include "json/iwjser.c"
 #include "iwxstr.h"
+#include "json/iwjsreg.h"
 #include "hcommon.h"
 #include <errno.h>
+#include <unistd.h>
 
 static const char* ename(iwrc rc) {
   switch (rc) {
@@ -31,7 +44,11 @@ static const char* ename(iwrc rc) {
     case JBL_ERROR_PARSE_INVALID_CODEPOINT: return "E_CP";
     case JBL_ERROR_PARSE_INVALID_UTF8: return "E_UTF8";
     case JBL_ERROR_MAX_NESTING_LEVEL_EXCEEDED: return "E_NEST";
-    default: return "E_OTHER";
+    case IW_ERROR_INVALID_ARGS: return "E_ARGS";
+    default:
+      iwrc_strip_errno(&rc);
+      if (rc == IW_ERROR_IO_ERRNO) return "E_IO";
+      return "E_OTHER";
   }
 }
 
@@ -126,6 +143,128 @@ static void tokenize(char *line) {
   }
 }
 
+// ------------------------------------------------------------------------------------------------ print channels
+// A channel = a producer (jbn_as_json, jbl_as_json, jbn_as_xml, the *_alloc functions) writing into a sink (one of the
+// exported printer callbacks, or the harness's own callback that takes the documented contract of jbl_json_printer literally).
+struct rec { struct iwxstr *bytes; struct iwxstr *log; };
+
+static iwrc rec_printer(const char *data, int size, char ch, int count, void *op) {
+  struct rec *r = op;
+  if (!data) {
+    if (r->log) iwxstr_printf(r->log, count == 1 ? " c%d" : " c%dx%d", (int) ch, count);
+    for (int i = 0; i < count; ++i) iwxstr_cat(r->bytes, &ch, 1);
+  } else {
+    int sz = size < 0 ? (int) strlen(data) : size;
+    if (r->log) {
+      iwxstr_cat(r->log, " b", 2);
+      if (!sz) iwxstr_cat(r->log, "-", 1);
+      for (int i = 0; i < sz; ++i) iwxstr_printf(r->log, "%02x", (unsigned) (uint8_t) data[i]);
+      iwxstr_printf(r->log, "/%d/%d", size, count);
+    }
+    if (!count) count = 1;
+    for (int i = 0; i < count; ++i) iwxstr_cat(r->bytes, data, sz);
+  }
+  return 0;
+}
+
+typedef iwrc (*prod_fn)(void *doc, jbl_json_printer pt, void *op, jbl_print_flags_t pf);
+static iwrc prod_node(void *doc, jbl_json_printer pt, void *op, jbl_print_flags_t pf) { return jbn_as_json(doc, pt, op, pf); }
+static iwrc prod_jbl(void *doc, jbl_json_printer pt, void *op, jbl_print_flags_t pf) { return jbl_as_json(doc, pt, op, pf); }
+static iwrc prod_xml(void *doc, jbl_json_printer pt, void *op, jbl_print_flags_t pf) {
+  struct jbn_as_xml_spec spec = { .printer_fn = pt, .printer_fn_data = op, .flags = pf, .print_xml_header = true };
+  return jbn_as_xml(doc, &spec);
+}
+
+#define MAXCH 8
+struct cres { const char *name; iwrc rc; char *txt; size_t len; int is_count; long n; };
+static struct cres cr[MAXCH];
+static int ncr;
+
+static void cres_add(const char *name, iwrc rc, const void *txt, size_t len, int is_count, long n) {
+  struct cres *c = &cr[ncr++];
+  c->name = name; c->rc = rc; c->len = len; c->is_count = is_count; c->n = n;
+  c->txt = malloc(len + 1);
+  if (len) memcpy(c->txt, txt, len);
+  c->txt[len] = 0;
+}
+
+// the sinks shared by all producers; names are <prefix>.<sink>
+static void run_sinks(const char *const *names, prod_fn prod, void *doc, jbl_print_flags_t pf) {
+  // xstr: jbl_xstr_json_printer
+  struct iwxstr *x = iwxstr_create_empty();
+  iwrc rc = prod(doc, jbl_xstr_json_printer, x, pf);
+  cres_add(names[0], rc, iwxstr_ptr(x), iwxstr_size(x), 0, 0);
+  iwxstr_destroy(x);
+  // fmem: jbl_fstream_json_printer on a memory stream
+  char *mem = 0; size_t msz = 0;
+  FILE *f = open_memstream(&mem, &msz);
+  rc = prod(doc, jbl_fstream_json_printer, f, pf);
+  fclose(f);
+  cres_add(names[1], rc, mem, msz, 0, 0);
+  free(mem);
+  // file: jbl_fstream_json_printer on a file of the file system
+  static FILE *tf;
+  if (!tf) tf = tmpfile();
+  rewind(tf);
+  if (ftruncate(fileno(tf), 0)) { /* contents beyond ftell are not read */ }
+  rc = prod(doc, jbl_fstream_json_printer, tf, pf);
+  long fl = ftell(tf);
+  fflush(tf);
+  rewind(tf);
+  char *fb = malloc(fl + 1);
+  size_t got = fread(fb, 1, fl, tf);
+  cres_add(names[2], rc, fb, got, 0, 0);
+  free(fb);
+  // count: jbl_count_json_printer
+  int cnt = 0;
+  rc = prod(doc, jbl_count_json_printer, &cnt, pf);
+  cres_add(names[3], rc, 0, 0, 1, cnt);
+  // rec: a printer callback of the caller's own
+  struct rec r = { iwxstr_create_empty(), 0 };
+  rc = prod(doc, rec_printer, &r, pf);
+  cres_add(names[4], rc, iwxstr_ptr(r.bytes), iwxstr_size(r.bytes), 0, 0);
+  iwxstr_destroy(r.bytes);
+}
+
+static int cres_same(const struct cres *a, const struct cres *b) {
+  if (a->is_count != b->is_count || !a->rc != !b->rc) return 0;
+  if (a->rc) return !strcmp(ename(a->rc), ename(b->rc));
+  if (a->is_count) return a->n == b->n;
+  return a->len == b->len && !memcmp(a->txt, b->txt, a->len);
+}
+
+static void cres_print(void) {
+  int done[MAXCH] = { 0 }, first = 1;
+  for (int i = 0; i < ncr; ++i) {
+    if (done[i]) continue;
+    printf("%s%s ", first ? "" : " | ", cr[i].rc ? "err" : "ok");
+    first = 0;
+    if (cr[i].rc) printf("%s", ename(cr[i].rc));
+    else if (cr[i].is_count) printf("#%ld", cr[i].n);
+    else puthex(cr[i].txt, cr[i].len);
+    printf(" ");
+    for (int j = i, k = 0; j < ncr; ++j) {
+      if (done[j] || !cres_same(&cr[i], &cr[j])) continue;
+      printf("%s%s", k++ ? "," : "", cr[j].name);
+      done[j] = 1;
+    }
+  }
+  // what a failed channel left behind (diagnostics, not compared with the model)
+  for (int i = 0; i < ncr; ++i) {
+    if (cr[i].rc) {
+      printf(" ## %s=", cr[i].name);
+      if (cr[i].is_count) printf("#%ld", cr[i].n); else puthex(cr[i].txt, cr[i].len);
+    }
+  }
+  printf("\n");
+  for (int i = 0; i < ncr; ++i) free(cr[i].txt);
+  ncr = 0;
+}
+
+static const char *const N_NAMES[] = { "n.xstr", "n.fmem", "n.file", "n.count", "n.rec" };
+static const char *const B_NAMES[] = { "b.xstr", "b.fmem", "b.file", "b.count", "b.rec" };
+static const char *const X_NAMES[] = { "x.xstr", "x.fmem", "x.file", "x.count", "x.rec" };
+
 int main(void) {
   size_t cap = 1 << 22;
   char *line = malloc(cap);
@@ -176,6 +315,80 @@ int main(void) {
           jbl_destroy(&jbl);
         }
       }
+      iwpool_destroy(pool);
+    } else if ((!strcmp(cmd, "chan") || !strcmp(cmd, "jchan") || !strcmp(cmd, "xml")) && tn >= 3) {
+      struct iwpool *pool = iwpool_create(0);
+      jbl_print_flags_t pf = (jbl_print_flags_t) atoi(tv[1]);
+      ti = 2;
+      struct jbl_node *n = rdval(pool);
+      if (!n) printf("?bad-dump\n");
+      else if (cmd[0] == 'c') {
+        run_sinks(N_NAMES, prod_node, n, pf);
+        char *out = 0;
+        iwrc rc = jbn_as_json_alloc(n, pf, &out);
+        cres_add("n.alloc", rc, out, out ? strlen(out) : 0, 0, 0);
+        free(out);
+        cres_print();
+      } else if (cmd[0] == 'x') {
+        run_sinks(X_NAMES, prod_xml, n, pf);
+        cres_print();
+      } else {
+        struct jbl *jbl = 0;
+        iwrc rc = jbl_from_node(&jbl, n);
+        if (rc) printf("err1 %s\n", ename(rc));
+        else {
+          run_sinks(B_NAMES, prod_jbl, jbl, pf);
+          char *out = 0;
+          rc = jbl_as_json_alloc(jbl, pf, &out);
+          cres_add("b.alloc", rc, out, out ? strlen(out) : 0, 0, 0);
+          free(out);
+          cres_print();
+          jbl_destroy(&jbl);
+        }
+      }
+      iwpool_destroy(pool);
+    } else if ((!strcmp(cmd, "chunks") || !strcmp(cmd, "jchunks")) && tn >= 3) {
+      struct iwpool *pool = iwpool_create(0);
+      jbl_print_flags_t pf = (jbl_print_flags_t) atoi(tv[1]);
+      ti = 2;
+      struct jbl_node *n = rdval(pool);
+      struct jbl *jbl = 0;
+      iwrc rc = 0;
+      if (!n) printf("?bad-dump\n");
+      else if (cmd[0] == 'j' && (rc = jbl_from_node(&jbl, n))) printf("err1 %s\n", ename(rc));
+      else {
+        struct rec r = { iwxstr_create_empty(), iwxstr_create_empty() };
+        rc = cmd[0] == 'j' ? jbl_as_json(jbl, rec_printer, &r, pf) : jbn_as_json(n, rec_printer, &r, pf);
+        if (rc) printf("err %s\n", ename(rc));
+        else printf("ok%s\n", iwxstr_size(r.log) ? iwxstr_ptr(r.log) : "");
+        iwxstr_destroy(r.bytes); iwxstr_destroy(r.log);
+      }
+      if (jbl) jbl_destroy(&jbl);
+      iwpool_destroy(pool);
+    } else if (!strcmp(cmd, "reg") && tn >= 2) {
+      // the registry: the tree replaces the root of a fresh registry, iwjsreg_sync writes the file
+      struct iwpool *pool = iwpool_create(0);
+      ti = 1;
+      struct jbl_node *n = rdval(pool);
+      static char path[64], tmp[80];
+      if (!path[0]) { snprintf(path, sizeof(path), "/tmp/jtext-reg-%d.json", (int) getpid()); snprintf(tmp, sizeof(tmp), "%s.tmp", path); }
+      unlink(path); unlink(tmp);
+      struct iwjsreg *reg = 0;
+      struct iwjsreg_spec spec = { .path = path };
+      iwrc rc = n ? iwjsreg_open(&spec, &reg) : IW_ERROR_INVALID_ARGS;
+      if (!rc) rc = iwjsreg_replace(reg, "/", n);
+      if (rc) printf("err1 %s\n", ename(rc));
+      else {
+        rc = iwjsreg_sync(reg);
+        FILE *f = fopen(path, "rb");
+        char *fb = 0; size_t got = 0;
+        if (f) { fb = malloc(1 << 20); got = fread(fb, 1, 1 << 20, f); fclose(f); }
+        if (rc) { printf("err %s r.sync ## r.sync=", ename(rc)); FILE *g = fopen(tmp, "rb"); if (g) { char *gb = malloc(1 << 20); size_t gg = fread(gb, 1, 1 << 20, g); puthex(gb, gg); free(gb); fclose(g); } printf("\n"); }
+        else { printf("ok "); puthex(fb, got); printf(" r.sync\n"); }
+        free(fb);
+      }
+      if (reg) iwjsreg_close(&reg);
+      unlink(path); unlink(tmp);
       iwpool_destroy(pool);
     } else if (!strcmp(cmd, "dbl") && tn >= 3) {
       // value-level oracle input for doubles: the array [x] printed by jbn_as_json and by jbl_as_json, and re-read
